@@ -519,7 +519,10 @@ class FunctionStub(Stub):
         # Yes, this is a horrible hack, but inspect.py gives us no way to
         # specify the function that should be used to format annotations.
         for module in self.strip_modules:
-            s = s.replace(module + ".", "")
+            # Only strip the prefix of a whole dotted name: not the tail of a
+            # longer module path (utils. in my.utils.B) or of a longer
+            # identifier (foo. in barfoo.Baz).
+            s = re.sub(r"(?<![\w.])" + re.escape(module) + r"\.", "", s)
         if self.kind == FunctionKind.CLASS:
             s = prefix + "@classmethod\n" + s
         elif self.kind == FunctionKind.STATIC:
